@@ -237,10 +237,12 @@ func (s *ServerSession) doMsg(stream *Stream) error {
 	case base.RtmpTypeIdAudio:
 		fallthrough
 	case base.RtmpTypeIdVideo:
-		if s.sessionStat.BaseType() != base.SessionBaseTypePubStr {
+		if s.sessionStat.BaseType() != base.SessionBaseTypePubStr || s.avObserver == nil {
+			// audio/video from a peer that is not (yet) a publisher: there is no observer to hand it to
 			err = nazaerrors.Wrap(base.ErrRtmpUnexpectedMsg)
+		} else {
+			s.avObserver.OnReadRtmpAvMsg(stream.toAvMsg())
 		}
-		s.avObserver.OnReadRtmpAvMsg(stream.toAvMsg())
 	default:
 		Log.Warnf("[%s] read unknown message. stream=%s, msg=%s", s.UniqueKey(), stream.toDebugString(), hex.EncodeToString(refForDebugLog))
 
